@@ -28,7 +28,7 @@ def budget(tier):
 
 @st.composite
 def _case(draw):
-    prof = S.profile(dep_only_file=0.2, max_methods=5, max_services=2, p_http=0.92, p_sig=0.1, p_routing=0.12, p_paged=0.1, p_lro=0.04,
+    prof = S.profile(dep_only_file=0.2, services_in_subpackages=True, max_methods=5, max_services=2, p_http=0.92, p_sig=0.1, p_routing=0.12, p_paged=0.1, p_lro=0.04,
                      p_stream=0.15, p_dep_io=0.0, p_comment=0.03, max_messages=4, max_fields=6, p_reserved_field=0.08,
                      p_map=0.0, p_resource=0.1, max_files=2, p_additional=0.2, required_fields=True, p_required=0.35, p_path_required=0.6,
                      p_dep_type=0.12, dep_messages=[".google.protobuf.Timestamp", ".google.protobuf.Duration", ".google.protobuf.FieldMask"],
